@@ -698,12 +698,28 @@ class Blockwise(Layer):
                         deps.add(tups)
             key_deps[(self.output,) + out_coords] = deps | const_deps
 
-        # Add valid-key dependencies from io_deps
-        for key, io_dep in self.io_deps.items():
-            if io_dep.produces_keys:
-                for out_coords in output_blocks:
-                    key = (self.output,) + out_coords
-                    valid_key_dep = io_dep[out_coords]
+        # Add valid-key dependencies from io_deps. The IO argument is indexed
+        # with its own block coordinates, which differ from the output
+        # coordinates once the layer has been fused into one with other output
+        # indices (e.g. a new leading axis or a transpose)
+        for cmap, axes, (arg, ind) in zip(coord_maps, concat_axes, self.indices):
+            if ind is None or arg not in self.io_deps:
+                continue
+            io_dep = self.io_deps[arg]
+            if not io_dep.produces_keys:
+                continue
+            for out_coords in output_blocks:
+                key = (self.output,) + out_coords
+                coords = out_coords + dummies
+                arg_coords = tuple(coords[c] for c in cmap)
+                if axes:
+                    all_coords = [
+                        t[1:] for t in flatten(_lol_product((arg,), arg_coords))
+                    ]
+                else:
+                    all_coords = [arg_coords]
+                for io_coords in all_coords:
+                    valid_key_dep = io_dep[io_coords]
                     if isinstance(valid_key_dep, TaskRef):
                         valid_key_dep = valid_key_dep.key
                     key_deps[key] |= {valid_key_dep}
